@@ -81,6 +81,19 @@ theorem lockStake_total (b b' : Bal) (src : Addr) (stake : Nat) (ok : Bool) (h :
       subst h
       exact (subBal_ok_of_le b src stake (by omega)).2.1
 
+theorem nodeTx_total (b b' : Bal) (src : Addr) (ok : Bool) (h : nodeTx b src ok = some b') :
+    total b' + nodeFee = total b := by
+  unfold nodeTx at h
+  by_cases c : get b src < nodeFee
+  · simp [c] at h
+  · simp only [c, if_false] at h
+    cases ok with
+    | false => simp at h
+    | true =>
+      simp only [Bool.not_true, Bool.false_eq_true, if_false, Option.some.injEq] at h
+      subst h
+      exact (subBal_ok_of_le b src nodeFee (by omega)).2.1
+
 theorem refundMove_total : ∀ (l : List (Addr × Nat)) (b : Bal),
     total (refundMove b l) = total b + (l.map (·.2)).sum := by
   intro l
@@ -227,6 +240,30 @@ theorem execTx_mass_lock (fuel : Nat) (w : World) (src : Addr) (n : Nat) (ok : B
       simp only [lockedBy]; unfold mass; simp only
       rw [← h1, ← h2]; exact Nat.add_right_comm _ _ _
 
+/-- value debited by an OperatorNode transaction and credited to nobody -/
+def nodeFeeBy : Tx → Status → Nat
+  | .node _ _, .success => nodeFee
+  | _, _ => 0
+
+/-- everything that leaves the ledger in a transaction besides self-destruct burns -/
+def outflowBy (tx : Tx) (st : Status) : Nat := lockedBy tx st + nodeFeeBy tx st
+
+theorem execTx_mass_node (fuel : Nat) (w : World) (src : Addr) (ok : Bool) :
+    mass (execTx fuel w (.node src ok)).1.st + nodeFeeBy (.node src ok) (execTx fuel w (.node src ok)).2
+      = mass w.st := by
+  simp only [execTx]
+  cases hf : processFee w.st.bal src with
+  | none => rfl
+  | some b1 =>
+    have h1 := processFee_total _ _ _ hf
+    simp only
+    cases hl : nodeTx b1 src ok with
+    | none => simp only [nodeFeeBy]; unfold mass; simp only; rw [h1]; rfl
+    | some b2 =>
+      have h2 := nodeTx_total b1 b2 src ok hl
+      simp only [nodeFeeBy]; unfold mass; simp only
+      rw [← h1, ← h2]; exact Nat.add_right_comm _ _ _
+
 theorem execTx_mass_contract (fuel : Nat) (w : World) (t : ContractTx) :
     mass (execTx fuel w (.contract t)).1.st = mass w.st := by
   simp only [execTx]
@@ -252,17 +289,22 @@ theorem execTx_mass_contract (fuel : Nat) (w : World) (t : ContractTx) :
       · unfold mass; simp only [revertTo]; rw [deductGasFee_total, hb]
       · unfold mass; simp only [revertTo]; rw [hb]
 
-/-- One iteration of the transaction loop: live balances + burned + locked is invariant. -/
+/-- One iteration of the transaction loop: live balances + burned + outflow is invariant. -/
 theorem execTx_mass (fuel : Nat) (w : World) (tx : Tx) :
-    mass (execTx fuel w tx).1.st + lockedBy tx (execTx fuel w tx).2 = mass w.st := by
+    mass (execTx fuel w tx).1.st + outflowBy tx (execTx fuel w tx).2 = mass w.st := by
   cases tx with
   | operator src dataOk targets =>
     have := execTx_mass_operator fuel w src dataOk targets
-    simp only [lockedBy]; rw [this]; rfl
-  | lock src n ok => exact execTx_mass_lock fuel w src n ok
+    simp only [outflowBy, lockedBy, nodeFeeBy]; rw [this]; rfl
+  | lock src n ok =>
+    have := execTx_mass_lock fuel w src n ok
+    simp only [outflowBy, nodeFeeBy]; exact this
+  | node src ok =>
+    have := execTx_mass_node fuel w src ok
+    simp only [outflowBy, lockedBy]; rw [Nat.zero_add]; exact this
   | contract t =>
     have := execTx_mass_contract fuel w t
-    simp only [lockedBy]; rw [this]; rfl
+    simp only [outflowBy, lockedBy, nodeFeeBy]; rw [this]; rfl
 
 /-! ### a failed transaction touches only the payer and the fee account -/
 
@@ -386,6 +428,13 @@ theorem execTx_burned (fuel : Nat) (w : World) (tx : Tx) : w.st.burned ≤ (exec
     | some b1 =>
       simp only
       cases lockStake b1 src n ok <;> exact Nat.le_refl _
+  | node src ok =>
+    simp only [execTx]
+    cases processFee w.st.bal src with
+    | none => exact Nat.le_refl _
+    | some b1 =>
+      simp only
+      cases nodeTx b1 src ok <;> exact Nat.le_refl _
   | contract t =>
     simp only [execTx]
     cases hcb : contractBefore w.st.bal t with
@@ -408,9 +457,9 @@ theorem execTxs_burned (fuel : Nat) : ∀ (txs : List Tx) (w : World), w.st.burn
 
 /-! ### blocks -/
 
-/-- stake locked by a list of transactions with the given outcomes -/
+/-- stake locked / node fees debited by a list of transactions with the given outcomes -/
 def lockedSum : List Tx → List Status → Nat
-  | t :: ts, s :: ss => lockedBy t s + lockedSum ts ss
+  | t :: ts, s :: ss => outflowBy t s + lockedSum ts ss
   | _, _ => 0
 
 theorem execTxs_mass (fuel : Nat) : ∀ (txs : List Tx) (w : World),
@@ -439,5 +488,41 @@ theorem execBlock_mass (fuel : Nat) (w : World) (txs : List Tx) :
   unfold mass at h ⊢
   simp only at h ⊢
   exact h
+
+/-! ### end of block -/
+
+theorem escrow_split : ∀ (e : Escrow) (h : Nat),
+    ((dueAt e h).map (·.2)).sum + escrowTotal (notDueAt e h) = escrowTotal e := by
+  intro e h
+  induction e with
+  | nil => simp [dueAt, notDueAt, escrowTotal]
+  | cons p r ih =>
+    obtain ⟨k, a, v⟩ := p
+    simp only [dueAt, notDueAt]
+    by_cases c : k = h
+    · simp only [c, if_true, List.map_cons, List.sum_cons, escrowTotal]; omega
+    · simp only [c, if_false, escrowTotal]; omega
+
+theorem escrowTotal_append : ∀ (e f : Escrow), escrowTotal (e ++ f) = escrowTotal e + escrowTotal f := by
+  intro e f
+  induction e with
+  | nil => simp [escrowTotal]
+  | cons p r ih =>
+    obtain ⟨k, a, v⟩ := p
+    simp only [List.cons_append, escrowTotal, ih]; omega
+
+/-- balances + escrow grow by exactly what the block added to the escrow; balances alone by exactly what was due -/
+theorem afterBlock_exact (b : Bal) (e : Escrow) (h : Nat) (added : Escrow) :
+    total (afterBlock b e h added).1 = total b + ((dueAt (e ++ added) h).map (·.2)).sum ∧
+    total (afterBlock b e h added).1 + escrowTotal (afterBlock b e h added).2
+      = total b + escrowTotal e + escrowTotal added := by
+  unfold afterBlock checkAndMove
+  simp only
+  have h1 := refundMove_total (dueAt (e ++ added) h) b
+  have h2 := escrow_split (e ++ added) h
+  have h3 := escrowTotal_append e added
+  constructor
+  · exact h1
+  · omega
 
 end Rangers.Ledger
